@@ -29,6 +29,7 @@ class Manifest(DashElement):
         ('minimumUpdatePeriod', from_isodatetime, None),
         ('timeShiftBufferDepth', from_isodatetime, None),
         ('mediaPresentationDuration', from_isodatetime, None),
+        ('minBufferTime', from_isodatetime, None),
         ('profiles', set_from_comma_string, None),
         ('publishTime', from_isodatetime, None),
     ]
@@ -58,7 +59,8 @@ class Manifest(DashElement):
         if self.baseurl is None:
             self.baseurl = url
             assert isinstance(url, str)
-        if mode != 'live':
+        self.has_publish_time: bool = self.publishTime is not None
+        if mode != 'live' and self.profiles is not None:
             if "urn:mpeg:dash:profile:isoff-on-demand:2011" in self.profiles:
                 self.mode = 'odvod'
         if self.publishTime is None:
@@ -69,6 +71,10 @@ class Manifest(DashElement):
         for idx, prd in enumerate(xml.findall('./dash:Period', self.xmlNamespaces), start=1):
             period: Period = Period(prd, self)
             if period.id is None:
+                if mode == 'live':
+                    period.attrs.add_error(
+                        'Period@id is mandatory for a dynamic manifest',
+                        clause='5.3.2.2')
                 # Period@id is a string. Setting it to a number is therefore safely unique
                 period.id = idx
             self.periods.append(period)
@@ -172,7 +178,16 @@ class Manifest(DashElement):
         self.elt.check_greater_than(
             len(self.periods), 0,
             msg=f'Manifest does not have a Period element: {self.url}')
+        self.attrs.check_not_none(
+            self.profiles, msg='MPD@profiles is mandatory', clause='5.3.1.2')
+        self.attrs.check_not_none(
+            self.minBufferTime,
+            msg='MPD@minBufferTime is mandatory', clause='5.3.1.2')
         if self.mode == "live":
+            self.attrs.check_true(
+                self.has_publish_time,
+                msg='MPD@publishTime must be present for live manifest',
+                clause='5.3.1.2')
             self.attrs.check_equal(
                 self.mpd_type, "dynamic",
                 msg=f'MPD@type must be dynamic for live manifest: {self.url}')
